@@ -1,9 +1,46 @@
 import SoundeventModel.Ops.Common
+import SoundeventModel.Aoef.Closure
 namespace SE.Ops.C18
-open Lean SE
+open Lean SE SE.Aoef SE.Paths
 
-def handle (op : String) (_a : Json) : Except String Json := do
+def pathJ (p : PPath) : Json :=
+  Json.mkObj [("root", Json.str p.root), ("parts", toJson p.parts), ("str", Json.str (render p))]
+
+/-- every recording reachable from a collection: `(uuid, path)` -/
+def recPaths (c : Collection) : List (String × PPath) :=
+  (dedupBy (·.uuid) (recsOf c.trav)).map fun r => (r.uuid, r.path)
+
+def pairsJ (xs : List (String × PPath)) : Json :=
+  arrJ (xs.map fun (u, p) => arrJ [Json.str u, Json.str (render p)])
+
+def optDir (a : Json) (k : String) : Except String (Option PPath) :=
+  match fldOpt a k with
+  | none => .ok none
+  | some v => do return some (parse (← v.getStr?))
+
+def handle (op : String) (a : Json) : Except String Json := do
   match op with
+  | "parse" => return pathJ (parse (← fldStr a "p"))
+  | "relative_to" =>
+    return exceptJ pathJ (relativeTo (parse (← fldStr a "p")) (parse (← fldStr a "d")))
+  | "join" => return pathJ (join (parse (← fldStr a "d")) (parse (← fldStr a "p")))
+  | "stored" =>
+    -- recording paths in the document `save c audio_dir` writes (or the failure)
+    let c : Collection ← fromJson? (← fld a "collection")
+    let r := do
+      let d ← save c (← (optDir a "audio_dir").mapError fun _ => Err.type)
+      pure ((lst d.recordings).map fun r => (r.uuid, r.path))
+    return exceptJ pairsJ r
+  | "relocate" =>
+    -- recording paths of `load (save c A) B`
+    let c : Collection ← fromJson? (← fld a "collection")
+    let sd ← optDir a "save_dir"
+    let ld ← optDir a "load_dir"
+    let r := do
+      let d ← save c sd
+      let c' ← load d ld
+      pure (recPaths c')
+    return exceptJ pairsJ r
   | _ => .error s!"C18: unknown op {op}"
 
 end SE.Ops.C18
